@@ -61,7 +61,9 @@ CHECKS['C08'] = dict(check='c08', engine='E3-history-vs-model', category='explor
                           'platform and three flag combinations (or both fail with the same error class); tampered return values '
                           'never reappear. The only nondeterminism is the order of reads and writes, which the seeded generator owns.',
                      note='trusted base: FlowIRConcrete(raw()) as the meaning of "from scratch"; sequences only (no concurrent callers, '
-                          'which the property does not quantify over); sampled histories of up to 40 operations')
+                          'which the property does not quantify over); sampled histories of up to 40 operations; every batch ends with one '
+                          'graph-level history on a generated DoWhile package (ComponentSpecification.setOption / '
+                          'instantiate_dowhile_next_iteration / configuration queries) - it reproduces the listed open finding')
 
 CHECKS['C14'] = dict(check='c14', also=['c14rt'], engine='E4-simfs-fault-enumeration', category='fault_enumeration', design='§3 C14',
                      technique='deterministic simulation with fault injection on a simulated file layer: every write boundary of an update x {crash before/after, torn flush, EIO, ENOSPC, rename failure}, old-or-new oracle + read-back fidelity',
